@@ -342,10 +342,21 @@ def make_interp(contracts=None):
     return ip
 
 
+class UnitBudget(BaseException):
+    """raised by the CPU-time alarm inside a path that alone exceeds the unit budget (BaseException: not swallowed by the
+    `except Exception` clauses of witness / concretisation code)"""
+
+
+def _budget_alarm(signum, frame):
+    raise UnitBudget()
+
+
 def run_unit(args):
     """executed in a worker process; returns a JSON-able summary"""
+    import signal
     modname, unit_name, tier, opts = args
     t0 = time.time()
+    c0 = time.process_time()
     out = {"unit": unit_name, "obligations": [], "paths": 0, "error": None, "oos": None, "witnesses": [],
            "models_used": [], "contracts_used": [], "functions": []}
     try:
@@ -359,9 +370,13 @@ def run_unit(args):
 
         def run(ctx):
             return unit.fn(ip, ctx, **{k: v for k, v in unit.params.items() if k != "may_be_empty"})
+        # budgets are CPU seconds of this worker (a loaded machine does not flip a verdict); the alarm cuts a single path that
+        # alone runs away (changed code can make one path arbitrarily expensive)
         budget = opts.get("unit_budget_s", 150)
+        signal.signal(signal.SIGPROF, _budget_alarm)
+        signal.setitimer(signal.ITIMER_PROF, budget)
         for ctx, obs in explore(run, max_paths=unit.max_paths):
-            if time.time() - t0 > budget:
+            if time.process_time() - c0 > budget:
                 # undecided, never a violation by itself: what was explored so far is kept, the rest falls to the native stand-in
                 out["oos"] = f"unit time budget of {budget} s exhausted after {out['paths']} paths"
                 break
@@ -390,13 +405,18 @@ def run_unit(args):
                     out["witnesses"].append({"error": repr(e), "path": out["paths"]})
         out["models_used"] = sorted(used)
         out["contracts_used"] = sorted(cused)
+    except UnitBudget:
+        out["oos"] = f"unit time budget exhausted inside one path after {out['paths']} complete paths"
     except Unsupported as u:
         out["oos"] = str(u)
     except PathLimit as pl:
         out["oos"] = str(pl)
     except Exception:
         out["error"] = traceback.format_exc()
+    finally:
+        signal.setitimer(signal.ITIMER_PROF, 0)
     out["seconds"] = round(time.time() - t0, 3)
+    out["cpu_seconds"] = round(time.process_time() - c0, 3)
     return out
 
 
